@@ -172,11 +172,13 @@ def r14_4(ck: Check) -> None:
     sp = Spec(s, ("wallet", "U", "tx"), forall=[("i", "tx.signable_equivalent().inputs")])
     msg = sp.term("tx.signable_equivalent().serialize()")
     # same message as the validator checks
-    v = ck.summ("skepticoin.consensus.validate_signature_for_spend", 0)
-    spv = Spec(v, ("i", "prev", "tx"))
+    # (looked at from the validator the consensus rules enter through, with its helpers expanded: who builds the message, and
+    # whether it is handed down or rebuilt per input, does not matter)
+    v = ck.summ("skepticoin.consensus.validate_non_coinbase_transaction_in_coinstate", 2)
+    spv = Spec(v, ("tx", "at", "cs"))
     vmsg = spv.term("tx.signable_equivalent().serialize()")
-    vcalls = [e for e in v.events if e.kind == "call" and e.parts[0][0] == "a" and e.parts[0][2] == "validate"]
-    same_shape = bool(vcalls) and vcalls[0].term[2][1:] == (vmsg,)
+    vcalls = [e for e in v.events if e.kind == "call" and e.parts and e.parts[0][0] == "a" and e.parts[0][2] == "validate"]
+    same_shape = bool(vcalls) and all(e.term[2][1:] == (vmsg,) for e in vcalls)
     elt = ("Input(output_reference=i.output_reference, signature=SECP256k1Signature("
            "ecdsa.SigningKey.from_string(wallet[U[i.output_reference].public_key.public_key], curve=ecdsa.SECP256k1).sign("
            "tx.signable_equivalent().serialize())))")
